@@ -216,7 +216,9 @@ where
     #[allow(clippy::should_implement_trait)]
     #[inline]
     pub fn next(&mut self) -> Option<Result<(&mut R, O), E>> {
-        self.done_recv.recv().unwrap().map(move |result| {
+        // a closed channel (reader thread finished without sending the end marker,
+        // e.g. because its initialization failed) means that no more results will arrive
+        self.done_recv.recv().unwrap_or(None).map(move |result| {
             match result {
                 Ok((r, o)) => {
                     let prev_rset = ::std::mem::replace(&mut self.current_recordset, r);
